@@ -2,6 +2,7 @@ package props
 
 import (
 	"fmt"
+	"reflect"
 	"math/big"
 	"net/url"
 	"strings"
@@ -306,6 +307,74 @@ func (p c16) whenCircular(c *core.Ctx) {
 	}
 }
 
+// whenEditNodes: an edit that brings a container / list entries / a leaf-list whose condition is false for what the target holds does
+// not write them (and leaves nothing of them behind), one whose condition holds writes them like any other.
+func (p c16) whenEditNodes(c *core.Ctx) {
+	body := "leaf o { type int32; } container gc { when \"../o>5\"; leaf y { type string; } } list gl { when \"../o>5\"; key k; leaf k { type string; } leaf v { type int32; } } " +
+		"leaf-list gll { when \"o>5\"; type string; } container w { leaf o2 { type int32; } container inner { when \"../o2>5\"; leaf z { type string; } } } leaf q { type string; }"
+	m, err := parser.LoadModuleFromString(nil, "module m { namespace \"urn:m\"; prefix m; revision 2020-01-01; "+body+" }")
+	if err != nil {
+		c.Violate("when/load-error/edit-nodes", "load: %v\n%s", err, body)
+		return
+	}
+	for _, o := range []int{9, 1} {
+		for _, piece := range []struct{ name, doc, key string }{
+			{"container", `{"gc":{"y":"v"}}`, "gc"},
+			{"list", `{"gl":[{"k":"a","v":1},{"k":"b","v":2}]}`, "gl"},
+			{"leaf-list", `{"gll":["p","q"]}`, "gll"},
+			{"nested-container", `{"w":{"inner":{"z":"v"}}}`, "w/inner"},
+		} {
+			c.Eval()
+			c.Shape("when-edit-nodes/%s/%v", piece.name, o > 5)
+			data := map[string]interface{}{}
+			b := node.NewBrowser(m, nodeutil.ReflectChild(data))
+			seed, _ := nodeutil.ReadJSON(fmt.Sprintf(`{"o":%d,"w":{"o2":%d},"q":"keep"}`, o, o))
+			if err := b.Root().UpsertFrom(seed); err != nil {
+				c.Violate("when/edit-seed-error/edit-nodes", "seeding failed: %v", err)
+				continue
+			}
+			n, _ := nodeutil.ReadJSON(piece.doc)
+			var uerr error
+			if c.Guard("edit nodes under when "+piece.name, func() { uerr = b.Root().UpsertFrom(n) }) {
+				continue
+			}
+			var holder interface{} = data
+			stored := true
+			for _, seg := range strings.Split(piece.key, "/") {
+				rv := reflect.ValueOf(holder)
+				if rv.Kind() != reflect.Map {
+					stored = false
+					break
+				}
+				item := rv.MapIndex(reflect.ValueOf(seg))
+				if !item.IsValid() {
+					// maps the library creates have interface{} keys
+					for _, k := range rv.MapKeys() {
+						if fmt.Sprint(k.Interface()) == seg {
+							item = rv.MapIndex(k)
+						}
+					}
+				}
+				if stored = item.IsValid(); !stored {
+					break
+				}
+				holder = item.Interface()
+			}
+			want := o > 5
+			wit := fmt.Sprintf("schema: %s\ntarget before: o=%d\nedit: %s\ntarget after: %v (error %v)", body, o, piece.doc, data, uerr)
+			if !want && stored {
+				c.Violate("when/false-but-written/edit-nodes/"+piece.name, "the condition is false for the target's data, yet the edit left %s in the target\n%s", piece.key, wit)
+			}
+			if want && (uerr != nil || !stored) {
+				c.Violate("when/true-but-not-written/edit-nodes/"+piece.name, "the condition holds for the target's data, yet the edit did not store %s\n%s", piece.key, wit)
+			}
+			if data["q"] != "keep" {
+				c.Violate("when/hides-too-much/edit-nodes", "the sibling leaf disappeared\n%s", wit)
+			}
+		}
+	}
+}
+
 // whenOperandGuarded: the operand of a condition is itself under a condition; and a leaf under a condition read directly
 // (Find + Get, GetValue) instead of as part of its container.
 func (p c16) whenOperandGuarded(c *core.Ctx) {
@@ -382,6 +451,9 @@ func (p c16) Run(c *core.Ctx, idx int) {
 	}
 	if idx%97 == 4 {
 		p.whenCircular(c)
+	}
+	if idx%97 == 5 {
+		p.whenEditNodes(c)
 	}
 	if idx%97 == 0 {
 		p.usesWhenOnContainer(c)
